@@ -530,6 +530,14 @@ class Check:
                 return "with-predecessors"
         raise FrameworkError("deviation of scenario %s not reproduced" % sc)
 
+    def reproduce_trace(self, family, sc, module, cfg, strip, env=None, select=None, head=()):
+        """reproduce() for trace-validated families: the scenario's recorded events (without the fields in `strip`, optionally
+        filtered by select(event) and preceded by `head`) must again be rejected by the trace specification."""
+        def still_bad(evs):
+            ev2 = list(head) + [{k: v for k, v in x.items() if k not in strip} for x in evs if select is None or select(x)]
+            return len(ev2) > len(head) and bool(self.validate_traces(module, cfg, ev2, name="reproduce"))
+        return self.reproduce(family, sc, still_bad, env=env)
+
     # ---------------------------------------------------------------- verdicts
     def nontrivial(self, obj):
         h = hashlib.sha1(json.dumps(obj, sort_keys=True).encode()).hexdigest()
